@@ -27,19 +27,23 @@ ProbeOK(p) ==      \* p : [s, panic, toks : Seq([b, e])], without ignore_space
       /\ \A i \in 1..n : p.toks[i].b < p.toks[i].e
       /\ \A i \in 1..(n - 1) : p.toks[i].e = p.toks[i + 1].b
 
+(* named deviation Stuck (F12, known finding): a dictionary in which some category has no
+   unknown entry is accepted; a probe containing a character whose primary category is such
+   a category may panic.  Both facts are read off the real dictionary (nounk, cats). *)
+F12Explains(p, nounk) == DevStuck /\ \E i \in 1..Len(p.cats) : p.cats[i] \in nounk
 Build == /\ Is("build")
-         /\ A("C10", "never-panics", E.outcome # "panic")
-         /\ A("C10", "valid-input-accepted", E.class = "VALID" => E.outcome = "ok")
-         /\ A("C10", "unsafe-input-rejected", E.class = "MUST_ERR" => E.outcome = "err")
-         (* F12 (known finding): a primary category without unknown entries is accepted *)
-         /\ A("C10", "category-without-unknown-entries-rejected", (E.class = "MUST_ERR_F12" /\ ~DevStuck) => E.outcome = "err")
-         /\ A("C10", "accepted-dictionary-is-safe",
-              (E.outcome = "ok" /\ ~(E.class = "MUST_ERR_F12" /\ DevStuck)) => \A i \in 1..Len(E.probes) : ProbeOK(E.probes[i]))
+         /\ LET nounk == RangeOf(E.nounk) IN
+            /\ A("C10", "never-panics", E.outcome # "panic")
+            /\ A("C10", "valid-input-accepted", E.class = "VALID" => E.outcome = "ok")
+            /\ A("C10", "unsafe-input-rejected", E.class = "MUST_ERR" => E.outcome = "err")
+            /\ A("C10", "category-without-unknown-entries-rejected", (E.class = "MUST_ERR_F12" /\ ~DevStuck) => E.outcome = "err")
+            /\ A("C10", "accepted-dictionary-is-safe",
+                 E.outcome = "ok" => \A i \in 1..Len(E.probes) : ProbeOK(E.probes[i]) \/ (E.probes[i].panic /\ F12Explains(E.probes[i], nounk)))
 
 (* C11 *)
 Lex == /\ Is("lex")
        /\ LET p == ParseLex(E.text) IN
-          /\ A("C11", "well-formed-csv-accepted", p.ok => E.ok)
+          /\ A("C11", "well-formed-csv-accepted", (p.ok /\ Len(p.rows) > 0) => E.ok)
           /\ (p.ok /\ E.ok =>
                 /\ A("C11", "one-word-per-row-in-order", Len(E.words) = Len(p.rows))
                 /\ A("C11", "numbers-and-feature-verbatim",
